@@ -38,5 +38,4 @@ func H11m_ReusedMap() {
 }
 
 // the long interning history also decides C11's "no aliasing of the input" for interned strings
-func H11m_ManyValues()   { H19_ManyValues() }
-func H11m_ManyValues_T() { H19_ManyValues_T() }
+func H11m_ManyValues() { H19_ManyValues() }
